@@ -32,13 +32,14 @@ pub trait Matrix<T: RealNumber>: Sized {
             r.mwf(), r.nrows_spec() == nrows, r.ncols_spec() == ncols,
             forall|i: int, j: int| 0 <= i < nrows && 0 <= j < ncols ==> #[trigger] r.at(i, j) == T::zero_spec();
 //@checkdecl src/linalg/mod.rs :: pub trait BaseMatrix<T: RealNumber>: Clone + Debug :: set :: fn set(&mut self, row: usize, col: usize, x: T)
-    // cell (row, col) becomes x, every other cell and the shape are unchanged
+    // cell (row, col) becomes x, every other (in-range) cell and the shape are unchanged
     fn set(&mut self, row: usize, col: usize, x: T)
         requires old(self).mwf(), row < old(self).nrows_spec(), col < old(self).ncols_spec(),
         ensures
             final(self).mwf(),
             final(self).nrows_spec() == old(self).nrows_spec(), final(self).ncols_spec() == old(self).ncols_spec(),
-            forall|i: int, j: int| #[trigger] final(self).at(i, j) == (if i == row && j == col { x } else { old(self).at(i, j) });
+            forall|i: int, j: int| 0 <= i < old(self).nrows_spec() && 0 <= j < old(self).ncols_spec()
+                ==> #[trigger] final(self).at(i, j) == (if i == row && j == col { x } else { old(self).at(i, j) });   // in-range cells only
 //@checkdecl src/linalg/mod.rs :: pub trait BaseMatrix<T: RealNumber>: Clone + Debug :: copy_row_as_vec :: fn copy_row_as_vec(&self, row: usize, result: &mut Vec<T>)
     // `result` (of length ncols) receives row `row`
     fn copy_row_as_vec(&self, row: usize, result: &mut Vec<T>)
